@@ -831,6 +831,7 @@ fn remote_drop_case(t: &mut Trace, case: u64, adlt_bin: &str, work: &str, shape:
     let mut open_reply = String::new();
     let (mut parked, mut quiet_ms) = (false, 0u64);
     let mut threads_during = -1;
+    let mut close_reply = String::new(); // only for the close_parked shape
     match ws::Conn::connect(server.port, Duration::from_secs(20)) {
         Ok(mut c) => {
             let onepass = shape != "paused_parked" && shape != "control_small" && shape != "while_streaming";
@@ -862,9 +863,16 @@ fn remote_drop_case(t: &mut Trace, case: u64, adlt_bin: &str, work: &str, shape:
                 let _ = c.ws.get_mut().write_all(&[0x81, 0xFE, 0x00, 0x7E, 1, 2, 3, 4, b'o', b'p']);
                 let _ = c.ws.get_mut().flush();
             }
-            // vanish: no close command, no websocket close frame
-            let _ = c.ws.get_mut().shutdown(std::net::Shutdown::Both);
-            drop(c);
+            if shape == "close_parked" {
+                // the orderly way for the consumer to go away while the pipeline is back-pressured: `close` has to be answered
+                let _ = c.send("close");
+                close_reply = await_reply(&mut c, Duration::from_secs(30));
+                c.close();
+            } else {
+                // vanish: no close command, no websocket close frame
+                let _ = c.ws.get_mut().shutdown(std::net::Shutdown::Both);
+                drop(c);
+            }
         }
         Err(e) => open_reply = format!("connect failed: {}", e),
     }
@@ -879,7 +887,7 @@ fn remote_drop_case(t: &mut Trace, case: u64, adlt_bin: &str, work: &str, shape:
         t.ev(json!({"ev":"server_exit","status":st}));
     }
     t.ev(json!({"ev":"census","threads_before":threads_before,"threads_during":threads_during,"threads_after":threads_after,"waited_ms":waited_ms,
-        "parked":parked,"quiet_after_ms":quiet_ms,"open_reply":open_reply}));
+        "parked":parked,"quiet_after_ms":quiet_ms,"open_reply":open_reply,"close_ok":shape != "close_parked" || close_reply.starts_with("ok:"),"close_reply":close_reply}));
     // the server still serves: a new connection opens a file
     let mut reopen = "no connection".to_string();
     if let Ok(mut c) = ws::Conn::connect(server.port, Duration::from_secs(10)) {
@@ -1020,6 +1028,7 @@ fn remote_drop_main(a: &Args) {
         "while_parsing" => "while_parsing",
         "while_streaming" => "while_streaming",
         "mid_frame" => "mid_frame",
+        "close_parked" => "close_parked",
         _ => "control_small",
     }).collect();
     // the cases are independent server processes: run them in parallel threads, write their events one case after the other
